@@ -170,7 +170,8 @@ func genMatcher(r *ref.R, depth int) *mspec {
 			{"api.example.com", "api.example.net", "blog.example.com", "cdn.example.com", "docs.example.com", "mail.example.com", "{sub}.example.org"},
 			{"{sub}.example.org", "api.example.org", "app.example.org", "b.com", "cdn.example.org", "docs.example.org", "a.com"}})}
 	case x < 4:
-		return &mspec{kind: "pathver", param: ref.Pick(r, []string{"pv", "", "ver"}), versions: ref.Pick(r, [][]string{{"v1"}, {"v2", "v1"}, {"v1/v1"}, {"v2"}, {"v1", "v2", "v10", "v11"}, {"v1", "v1beta", "v2"}, {"v10", "v1"}})}
+		return &mspec{kind: "pathver", param: ref.Pick(r, []string{"pv", "", "ver"}), versions: ref.Pick(r, [][]string{{"v1"}, {"v2", "v1"}, {"v1/v1"}, {"v2"}, {"v1", "v2", "v10", "v11"}, {"v1", "v1beta", "v2"}, {"v10", "v1"},
+			{"v1/beta", "v1"}, {"v2", "v1/beta", "v1"}})} // the first listed version that fits wins: the order of the list is part of the matcher
 	case x < 5:
 		return &mspec{kind: "headerver", param: ref.Pick(r, []string{"hv", "ver"}), versions: ref.Pick(r, [][]string{{"1"}, {"1", "2"}, {"2"}})}
 	case x < 6:
@@ -194,7 +195,7 @@ type grouter struct {
 
 var c13Patterns = []string{"/x", "/{p}/y", "/v1/x", "/v1/{p}/y"}
 var c13Hosts = []string{"a.com", "b.com", "x.example.com", "zz.org", "A.com:80", "[::1]", "[::1]:8080", "[FE80::1]", "b.com:", "Über.example.com", "über.example.com:8080", "ÄRZTE.Example.com", "api.example.org", "api.example.net", "blog.example.org", "apx.example.org", "www.example.org:443"}
-var c13Paths = []string{"/x", "/v1/x", "/v2/x", "/v1/v1/x", "/7/y", "/v1/7/y", "/v2/v1/x", "/nothing", "/v1", "/v1/", "/v10/x", "/v11/7/y", "/v1beta/x", "/v10/v1/x", "/v111/x"}
+var c13Paths = []string{"/x", "/v1/x", "/v2/x", "/v1/v1/x", "/7/y", "/v1/7/y", "/v2/v1/x", "/nothing", "/v1", "/v1/", "/v10/x", "/v11/7/y", "/v1beta/x", "/v10/v1/x", "/v111/x", "/v1/beta/x", "/v1/beta/7/y", "/v1/beta"}
 var c13Accepts = []string{"", "application/json;version=1", "text/html;version=2", "a/b;version=3"}
 
 // c13RouterKeepsItsMiddlewares: "exactly as that router alone would serve" includes what the router wraps its routes
